@@ -64,6 +64,7 @@ package client
 //@   before store send assert notfound-is-requeued-whole: called(Validator) ==> (f.NotFound() ==> arg0[len(arg0)-1] == cached)
 //@   before store send assert failed-is-resent-whole: called(Validator) ==> (!f.NotFound() && f.Failed() ==> arg0[len(arg0)-1] == cached || (typeis(arg0[len(arg0)-1], *recoverFile) && len(as(arg0[len(arg0)-1], *recoverFile).left) == 1 && as(arg0[len(arg0)-1], *recoverFile).left[0].Beg == 0 && as(arg0[len(arg0)-1], *recoverFile).left[0].End == cached.GetSize() && as(arg0[len(arg0)-1], *recoverFile).Cached == cached))
 //@   before store send assert resumed-file-keeps-its-announced-predecessor: called(Validator) && !f.NotFound() && f.Failed() && has(lookup, f.GetName()) ==> typeis(arg0[len(arg0)-1], *recoverFile) && as(arg0[len(arg0)-1], *recoverFile).prev == lookup[f.GetName()].Prev && as(arg0[len(arg0)-1], *recoverFile).Cached == cached
+//@   on return assert complete-recovery-reports-no-error: (!called((*Broker).shouldStopNow) || !lastret((*Broker).shouldStopNow, 0)) && (!called(Validator) || lastret(Validator, 1) == nil) ==> err == nil
 //@   before call sts.SendLogger.Sent assert sent-logged-once: called(sts.SendLogger.WasSent) && !lastret(sts.SendLogger.WasSent, 0) && (f.Waiting() || f.Received())
 
 // the arithmetic of the Iterate callback of recover is proved on the closure itself (short context):
